@@ -1127,12 +1127,22 @@ pub struct RunResult {
   pub outcome: arx_rt::Outcome,
 }
 
+/// every execution of the harness starts here: the runtime schedules before lock releases
+/// too if (and only if) the crate under test uses try_lock-style operations
+pub fn rt_run<F>(cfg: arx_rt::Config, main: F) -> arx_rt::Outcome
+where
+  F: FnOnce() + Send + 'static,
+{
+  arx_rt::set_release_points(rx_inst::VERIF_USES_TRY_LOCKS);
+  arx_rt::run(cfg, main)
+}
+
 pub fn run_conc(case: &Case, threads: &[Vec<Action>], cfg: arx_rt::Config, opts: RunOpts) -> RunResult {
   let log = Arc::new(Mutex::new(RunLog::default()));
   let l2 = log.clone();
   let case2 = case.clone();
   let threads2 = threads.to_vec();
-  let outcome = arx_rt::run(cfg, move || drive_conc(&case2, &threads2, &opts, l2));
+  let outcome = rt_run(cfg, move || drive_conc(&case2, &threads2, &opts, l2));
   let log = lk(&log).clone();
   RunResult { log, outcome }
 }
@@ -1141,7 +1151,7 @@ pub fn run_case(case: &Case, cfg: arx_rt::Config, opts: RunOpts) -> RunResult {
   let log = Arc::new(Mutex::new(RunLog::default()));
   let l2 = log.clone();
   let case2 = case.clone();
-  let outcome = arx_rt::run(cfg, move || drive(&case2, &opts, l2));
+  let outcome = rt_run(cfg, move || drive(&case2, &opts, l2));
   let log = lk(&log).clone();
   RunResult { log, outcome }
 }
